@@ -75,6 +75,7 @@ func c05Run(mods map[string]string, underTest string, tags []string, cas string,
 			return
 		}
 	}
+	r.Sample(cas)
 	key := ""
 	// Parse on the text under test (the analyzer parses imported modules itself)
 	o := realParse(text, underTest)
